@@ -68,6 +68,7 @@ ASSUMPTIONS = [
     "CUR family only with recompute_every in {0,1} (per the property); data generic so that the rank exceeds the request",
     "the reference is the implementation's own cold fit (its correctness is C02/C06/C07)",
 ]
+RULE = RULE + " " + vforms.RULE_SUFFIX
 KINDS = ("gauss", "uniform", "scaled1", "clustered1", "lattice_wide")
 
 
